@@ -111,7 +111,36 @@ def explore(shape_name, funcs, index, enums, mode="print0"):
         v = deref(args[0])
         while isinstance(v, (Ptr, BoxObj)):
             v = deref(v)
+        if isinstance(v, Struct) and v.ty == "Bytes":
+            return SymStr(v.fields[0])
         return v if isinstance(v, SymStr) else PStr(text_of(m, v))
+
+    def chars_of(m, v):
+        v = as_path(m, [v])
+        return list(v.chars) if isinstance(v, SymStr) else list(v.text.encode())
+
+    def str_replace(m, args):
+        """str::replace(self, from, to) with a concrete self / from and a possibly symbolic 'to'"""
+        text, pat = text_of(m, args[0]), text_of(m, args[1])
+        to = chars_of(m, args[2])
+        out, parts = [], text.split(pat) if pat else [text]
+        for k, part in enumerate(parts):
+            if k: out += to
+            out += list(part.encode())
+        return SymStr(out)
+
+    def trim_start_matches(m, args):
+        """str::trim_start_matches with a set of chars, on possibly symbolic bytes"""
+        cs_ = chars_of(m, args[0])
+        pat = deref(args[1])
+        wanted = pat if isinstance(pat, list) else [pat]
+        k = 0
+        while k < len(cs_):
+            c = cs_[k]
+            hit = (c in wanted) if isinstance(c, int) else m.decide(z3.Or([interp._z(c) == w for w in wanted]))
+            if not hit: break
+            k += 1
+        return SymStr(cs_[k:])
 
     def comps(chars):
         """std::path components of a byte list whose '/' are all concrete (names cannot contain '/')"""
@@ -203,7 +232,9 @@ def explore(shape_name, funcs, index, enums, mode="print0"):
                "DirEntry::path": lambda m, a: deref(a[0]).fields[0], "DirEntry::depth": lambda m, a: deref(a[0]).fields[1],
                "DirEntry::into_path": lambda m, a: deref(a[0]).fields[0], "DirEntry::path_is_symlink": lambda m, a: False,
                "PathBuf::as_path": as_path, "<PathBuf as Deref>::deref": as_path, "Path::to_path_buf": as_path, "Path::to_string_lossy": as_path,
-               "<&Path as Into>::into": as_path, "<Cow as Deref>::deref": as_path,
+               "<&Path as Into>::into": as_path, "<Cow as Deref>::deref": as_path, "OsStr::to_string_lossy": as_path, "<OsString as Deref>::deref": as_path,
+               "<OsString as From>::from": as_path, "<OsString as From<String>>::from": as_path, "<String as Deref>::deref": as_path, "str::replace": str_replace, "str::trim_start_matches": trim_start_matches,
+               "str::trim_start": lambda m, a: trim_start_matches(m, [a[0], [0x20, 0x09, 0x0A, 0x0B, 0x0C, 0x0D]]),
                "Path::parent": path_parent, "<Option<PathBuf> as PartialEq>::eq": opt_path_cmp(True), "<Option<PathBuf> as PartialEq>::ne": opt_path_cmp(False),
                "<dyn Dependencies as Dependencies>::get_output": lambda m, a: Ptr([Struct("Cell", [state["sink"]])], 0),
                "<BufReader as BufRead>::read_until": read_until,
@@ -224,7 +255,7 @@ def explore(shape_name, funcs, index, enums, mode="print0"):
         if len(nm) == 2:
             m.base_constraints.append(z3.Or(nm[0] != ord("."), nm[1] != ord(".")))
     m.pending = [[]]
-    expr = {"print0": ["-print0"], "print": ["-print"], "default": []}[mode]
+    expr = {"print0": ["-print0"], "print0_I": ["-print0"], "print": ["-print"], "default": []}[mode]
     t0 = time.time()
     while m.pending:
         m.reset_path(m.pending.pop())
@@ -246,14 +277,16 @@ def explore(shape_name, funcs, index, enums, mode="print0"):
             ret = m.call("process_dir", [RStr(start) if isinstance(start, str) else SymStr(start), Ptr(cfg, 0), Opaque("deps"), Ptr(r.fields[0].cell, 0), Ptr(quit_cell, 0)])
             written = list(state["sink"].bytes)
             argv = None
-            if mode == "print0":
+            if mode in ("print0", "print0_I"):
                 state["pipe"] = written
-                action = Enum("ExecAction", "Command", [VecObj([PStr("cmd"), PStr("fixed")])])
-                bo = m.call("CommandBuilderOptions::new", [action, Opaque("env"), Struct("LimiterCollection", [VecObj()]), NONE()])
+                repl = mode == "print0_I"
+                action = Enum("ExecAction", "Command", [VecObj([PStr("cmd"), PStr("x{}y") if repl else PStr("fixed")] + ([PStr("{}")] if repl else []))])
+                coll = Struct("LimiterCollection", [VecObj([BoxObj(Struct("MaxArgsCommandSizeLimiter", [0, 1]))] if repl else [])])
+                bo = m.call("CommandBuilderOptions::new", [action, Opaque("env"), coll, Some(RStr("{}")) if repl else NONE()])
                 if bo.variant != "Ok":
                     raise Unsupported("CommandBuilderOptions::new failed")
                 rd = BoxObj(Struct("ByteDelimitedArgumentReader", [Struct("BufReader", []), 0]))
-                opts = [Struct("InputProcessOptions", [False, NONE(), NONE(), False])]
+                opts = [Struct("InputProcessOptions", [False, Some(1) if repl else NONE(), NONE(), False])]
                 rr = m.call("process_input", [Ptr([bo.fields[0]], 0), rd, Ptr(opts, 0)])
                 if rr.variant != "Ok":
                     res["violations"].append({"what": "xargs -0 failed on find's output"})
@@ -269,7 +302,7 @@ def explore(shape_name, funcs, index, enums, mode="print0"):
             continue
         res["paths"] += 1
         order = state["order"]
-        delim = 0 if mode == "print0" else 10
+        delim = 0 if mode in ("print0", "print0_I") else 10
         want = []
         for p, _d, _dir in order:
             want += p + [delim]
@@ -295,7 +328,21 @@ def explore(shape_name, funcs, index, enums, mode="print0"):
             bad.append("output flushed %d times for %d entries" % (state["sink"].flushes, len(order)))
         if ret != 0:
             bad.append("walk status %r" % (ret,))
-        if argv is not None:
+        if argv is not None and mode == "print0_I":
+            # xargs -0 -I{} cmd x{}y {}: one invocation per path, the path substituted unmodified
+            if len(argv) != len(order):
+                bad.append("%d invocations for %d paths" % (len(argv), len(order)))
+            else:
+                for k, (p, _d, _dir) in enumerate(order):
+                    got_args = argv[k]
+                    if len(got_args) != 3:
+                        bad.append("invocation %d has %d arguments" % (k + 1, len(got_args) - 1)); continue
+                    try:
+                        prove_eq(str_bytes(got_args[1]), [ord("x")] + p + [ord("y")], "first argument of invocation %d" % (k + 1))
+                        prove_eq(str_bytes(got_args[2]), p, "second argument of invocation %d" % (k + 1))
+                    except Unsupported:
+                        bad.append("invocation %d: arguments %r" % (k + 1, got_args))
+        elif argv is not None:
             if len(argv) != 1:
                 bad.append("%d invocations, expected one" % len(argv))
             else:
